@@ -1,5 +1,5 @@
 """C11 — no safe operation yields an invalid hash object (the structural clauses; widest check)."""
-from ..rules import rle, validate, tail, fields, eqord, vis, panic, parser, typestate, witness, normal, convert, casts, summary, beliefs, blocksize
+from ..rules import rle, validate, tail, fields, eqord, vis, panic, parser, typestate, witness, normal, convert, casts, summary, beliefs, blocksize, data
 
 EXPL = ("Decides: SA-VIS: the representation of all hash/target/generator types is private, no exported safe function hands out &mut "
         "into it, accumulating initialisers/views/encoders/_internal functions are not exported, exported *_unchecked are unsafe - so "
@@ -46,6 +46,7 @@ def run(ctx):
         ctx.guard("C11", "traits", lambda: vis.trait_census(ctx, prog, scope=None))
         ctx.guard("C11", "casts", lambda: casts.census(ctx, prog, scope=None, floor=15))
         ctx.guard("C11", "bs-conversions", lambda: blocksize.log_conversions(ctx, prog))
+        ctx.guard("C11", "bs-tables", lambda: data.block_size_tables(ctx, prog))
         ctx.guard("C11", "summaries", lambda: summary.check(ctx, prog, r'internals::(hash|hash_dual|compare)::(?!.*(Windows|compare_easy))', floor=50))
         ctx.guard("C11", "generic consts", lambda: summary.check_consts(ctx, prog, floor=13))
         ctx.guard("C11", "path summaries", lambda: summary.check_paths(ctx, prog, r'internals::(hash|hash_dual|compare)::(?!.*(Windows|compare_easy))', floor=39))
